@@ -160,3 +160,35 @@ func Calls(fn *ssa.Function) []ssa.CallInstruction {
 	}
 	return out
 }
+
+// ReturnOperand resolves the idx-th result of a return through the
+// "defer-spilled result" pattern of go/ssa (`*r = v; rundefers; t = *r; return t`):
+// if the operand is a load of a local cell that is stored earlier in the same
+// block, the stored value is returned.
+func ReturnOperand(ret *ssa.Return, idx int) ssa.Value {
+	v := ret.Results[idx]
+	u, ok := v.(*ssa.UnOp)
+	if !ok {
+		return v
+	}
+	al, ok := u.X.(*ssa.Alloc)
+	if !ok {
+		return v
+	}
+	b := ret.Block()
+	for i := InstrIndex(ret) - 1; i >= 0; i-- {
+		if st, ok := b.Instrs[i].(*ssa.Store); ok && st.Addr == ssa.Value(al) {
+			return st.Val
+		}
+	}
+	// single predecessor chain
+	for p := b; len(p.Preds) == 1; {
+		p = p.Preds[0]
+		for i := len(p.Instrs) - 1; i >= 0; i-- {
+			if st, ok := p.Instrs[i].(*ssa.Store); ok && st.Addr == ssa.Value(al) {
+				return st.Val
+			}
+		}
+	}
+	return v
+}
